@@ -253,11 +253,11 @@ const WORDS: &[&str] = &[
 ];
 const KEYS: &[&str] = &[
     "a", "b", "ab", "ba", "abc", "acb", "bac", "abd", "ac", "é", "e\u{301}", "a b", "ﬁ", "x", "<bow> a b",
-    "中", "bb", "aé", "fi", "cab",
+    "中", "bb", "aé", "fi", "cab", "🇩🇪", "क्ष", "e\u{301}\u{200d}",
 ];
 const QUERIES: &[&str] = &[
     "a", "b", "ab", "ba", "abc", "acb", "bca", "ac", "abd", "bd", "", "é", "e\u{301}", "ﬁ", "xyz", "ｂ", "a b",
-    "aé", "abcd", "c", "cba",
+    "aé", "abcd", "c", "cba", "🇩🇪🇫", "क्", "\u{1100}\u{1161}",
 ];
 const FREQS: &[usize] = &[0, 1, 1, 2, 2, 3, 3, 5, 10, 1000, 1 << 40];
 
